@@ -116,9 +116,15 @@ pub fn verif_ids_reported_wasted(tracks: Vec<(u64, Result<TrackStatus>)>) -> (r:
         .collect::<Vec<_>>()
 }
 
+//@PASTE-ITEM file=src/trackers/sort.rs anchor=`pub struct AutoWaste {`
+
 pub trait TrackerAPI<TA, M, OA, N> {
     spec fn main_tracks(&self) -> Map<u64, Track<TA, M, OA, N>>;
     spec fn wasted_tracks(&self) -> Map<u64, Track<TA, M, OA, N>>;
+
+    // the auto-waste countdown (periodicity / counter) lives beside the stores: reading or writing it leaves them alone
+    fn get_auto_waste_obj_mut(&mut self) -> (r: &mut AutoWaste)
+        ensures final(self).main_tracks() == old(self).main_tracks(), final(self).wasted_tracks() == old(self).wasted_tracks();
 
     fn get_main_store_mut(&mut self) -> (r: &mut TrackStore<TA, M, OA, N>)
         ensures r.tracks() == old(self).main_tracks(), final(r).tracks() == final(self).main_tracks(),
